@@ -66,6 +66,34 @@ pub mod syntax {
         else if s.len() > 0 && s[0] == '%' { run_token(s, |c: char| bin_mid(c), |c: char| bin_mid(c), 1, TokenKind::Number) }
         else { None }
     }
+    pub proof fn lemma_boff_ge(s: Seq<char>, i: int)
+        requires 0 <= i <= s.len()
+        ensures boff(s, i) >= i
+        decreases i
+    {
+        if i > 0 { lemma_boff_ge(s, i - 1); }
+    }
+    /// the characters of `w` stand at index i of s
+    pub open spec fn starts_with_at(s: Seq<char>, i: int, w: Seq<char>) -> bool {
+        0 <= i && i + w.len() <= s.len() && forall|k: int| 0 <= k < w.len() ==> s[i + k] == #[trigger] w[k]
+    }
+    /// R28 helper: `STR.chars()` as the vector of the string's characters in order (ASSUMED)
+    #[verifier::external_body]
+    pub fn verif_chars(s: &&str) -> (r: Vec<char>) ensures r@ == (**s)@ { unimplemented!() }
+    /// C07: comments.  `;` starts a comment that runs up to (not including) the next line break; `;*` starts a block
+    /// comment that runs to its matching `*;` - block comments nest, `;*` is looked for before `*;` at every position -
+    /// or to the end of the text if it is never closed.
+    pub open spec fn block_end(s: Seq<char>, i: int, nesting: nat) -> int decreases (if s.len() > i { s.len() - i } else { 0 }) {
+        if i < 0 || i >= s.len() { s.len() as int }
+        else if starts_with_at(s, i, ";*"@) { block_end(s, i + 2, nesting + 1) }
+        else if starts_with_at(s, i, "*;"@) { if nesting == 0 { i + 2 } else { block_end(s, i + 2, (nesting - 1) as nat) } }
+        else { block_end(s, i + 1, nesting) }
+    }
+    pub open spec fn comment_token(s: Seq<char>) -> Option<(TokenKind, usize)> {
+        if s.len() == 0 || s[0] != ';' { None }
+        else if s.len() > 1 && s[1] == '*' { Some((TokenKind::Comment, boff(s, block_end(s, 2, 0)) as usize)) }
+        else { Some((TokenKind::Comment, boff(s, find_char(s, '\n', 1)) as usize)) }
+    }
     /// derived PartialEq of TokenKind (ASSUMED to be what #[derive] generates: equal variants)
     impl vstd::std_specs::cmp::PartialEqSpecImpl for TokenKind {
         open spec fn obeys_eq_spec() -> bool { true }
